@@ -17,6 +17,7 @@
  */
 
 #include "lib/ebus/symbol.h"
+#include <string.h>
 #include <iostream>
 #include <iomanip>
 #include <string>
@@ -66,7 +67,7 @@ unsigned int parseInt(const char* str, int base, unsigned int minValue, unsigned
     return 0;
   }
 
-  if (minValue > ret || ret > maxValue) {
+  if (memchr(str, '-', strEnd - str) != nullptr || minValue > ret || ret > maxValue) {  // strtoul accepts a sign
     *result = RESULT_ERR_OUT_OF_RANGE;  // invalid value
     return 0;
   }
